@@ -176,6 +176,25 @@ def rule_r2(ctx):
         ctx.r.ok(rid, "clear_untrusted_headers iterates over the whole set it is given", cf.loc())
     else:
         ctx.r.violation(rid, key_of(cf, None, "clear-subset"), "clear_untrusted_headers does not iterate over its untrusted_headers argument", cf.loc())
+    # ... on every normal path, and for every member (no filter besides "was it present")
+    cg_ = cfg_of(cf)
+    popn = [n for n in cg_.nodes if n.ast is not None and n.kind in ("stmt", "iter", "test")
+            and any(isinstance(c, ast.Call) and isinstance(c.func, ast.Attribute) and c.func.attr == "pop" and dotted(c.func.value) == cenv for c in ast.walk(n.ast if n.kind != "iter" else n.ast.iter))]
+    iters = [n for n in cg_.nodes if n.kind == "iter" and dotted(n.ast.iter) == cf.params[1]]
+    must = iters or popn
+    if must and cg_.path(cg_.entry, cg_.exit, avoid=must, follow_exc=False) is None:
+        ctx.r.ok(rid, "every normal path through clear_untrusted_headers performs the removal", cf.loc())
+    else:
+        ctx.r.violation(rid, key_of(cf, None, "clear-skipped"), "clear_untrusted_headers can return without removing anything (a path avoids the removal): some untrusted header survives", cf.loc())
+    for n in popn:
+        extra = [(norm(t), pol) for (t, pol) in guards_of(cg_, n)]
+        if extra:
+            ctx.r.violation(rid, key_of(cf, None, "clear-conditional"), "the removal in clear_untrusted_headers only happens under %s" % extra, cf.loc(n.ast))
+    for x in it:
+        if isinstance(x, ast.comprehension) and dotted(x.iter) == cf.params[1]:
+            for cond in x.ifs:
+                if not any(isinstance(c, ast.Call) and isinstance(c.func, ast.Attribute) and c.func.attr == "pop" for c in ast.walk(cond)):
+                    ctx.r.violation(rid, key_of(cf, None, "clear-filtered"), "clear_untrusted_headers filters the names it removes by %s" % norm(cond), cf.loc(cond))
 
 
 def rule_r3(ctx):
@@ -247,8 +266,7 @@ def rule_r4(ctx):
     ctx.r.floor(rid, n, 8, "stores of connection metadata keys")
 
 
-def rule_r5(ctx):
-    rid = "C15.R5"
+def rule_r5(ctx, rid="C15.R5"):
     ctx.r.rule(rid, "the middleware is installed whenever trust or clearing is configured, each adjustment passed to the parameter of the same meaning")
     p = ctx.p
     f = p.func("server.BaseWSGIServer.__init__")
